@@ -102,11 +102,39 @@ def replay_after_earlier_request(info, cls, kind, gibbs):
     return None
 
 
+def replay_remove_poly(info, ce):
+    """detrending is scale free: the residual is the record minus its least-squares polynomial of degree k -- orthogonal to 1..x^k --
+    for records of ANY amplitude (battery: amplitude ~1 and the same records scaled by 1e-9 and 1e6)"""
+    import eqsig
+    from eqsig.fns import generic
+    deg, level = int(info.get('deg', 1)), info.get('level', 'object')
+    rng = np.random.RandomState(2)
+    for n in (deg + 2, 12, 60):
+        t = np.linspace(0, 1, n)
+        base = rng.randn(n) + 2.0 + 3.0 * t - 4.0 * t ** 2 + 1.5 * t ** 3
+        for scale in (1.0, 1e-9, 1e6):
+            x = base * scale
+            if level == 'object':
+                s = eqsig.Signal(x.copy(), 0.01)
+                s.remove_poly(poly_fit=deg)
+                res = np.asarray(s.values)
+            else:
+                res = np.asarray(generic.remove_poly(x.copy(), poly_fit=deg))
+            want = x - np.polyval(np.polyfit(t, x, deg), t)
+            if res.shape != want.shape or np.max(np.abs(res - want)) > 1e-8 * np.max(np.abs(x)):
+                return dict(status='confirmed', observed={'max_difference_relative_to_amplitude': float(np.max(np.abs(res - want)) / np.max(np.abs(x))) if res.shape == want.shape else 'shape'},
+                            detail='remove_poly(degree %d) of a record of amplitude ~%g is not the record minus its least-squares polynomial' % (deg, np.max(np.abs(x))),
+                            input={'n': n, 'scale': scale, 'degree': deg, 'level': level, 'seed': 2})
+    return dict(status='not-reproduced', detail='remove_poly subtracts the least-squares polynomial on the battery (three amplitude scales)')
+
+
 def replay(info, ce):
     import eqsig
     from scipy.signal import butter, filtfilt
     if info.get('op') == 'running_average':
         return replay_running_average(info, ce)
+    if info.get('op') == 'remove_poly':
+        return replay_remove_poly(info, ce)
     cls = getattr(eqsig, info.get('cls', 'AccSignal'))
     kind, gibbs = info.get('cut', 'band-tuple'), info.get('gibbs')
     if info.get('history') == 'prior':
